@@ -99,4 +99,90 @@ theorem mbsnrtowcs_valid (mbr : Bytes → MbRes) (src : Bytes) (srclen : Nat) (d
   rw [this]
   simp [Nat.min_eq_left hs]
 
+/-- why the scan of `mbsnrtowcs` stops -/
+inductive MbStop
+  | endOfInput   -- the `srclen` bytes are used up
+  | nul          -- a NUL character
+  | bad          -- invalid or incomplete sequence
+deriving DecidableEq
+
+/-- `s` splits into the characters `cs`, then stops for reason `st` with `rem` unread -/
+inductive DecodesTo (mbr : Bytes → MbRes) : Bytes → List (Nat × Nat) → MbStop → Bytes → Prop
+  | done : DecodesTo mbr [] [] .endOfInput []
+  | nul (s : Bytes) : s ≠ [] → mbr s = .nul → DecodesTo mbr s [] .nul s
+  | invalid (s : Bytes) : s ≠ [] → mbr s = .invalid → DecodesTo mbr s [] .bad s
+  | incomplete (s : Bytes) : s ≠ [] → mbr s = .incomplete → DecodesTo mbr s [] .bad s
+  | cons (s : Bytes) (len wc : Nat) (cs : List (Nat × Nat)) (st : MbStop) (rem : Bytes) :
+      s ≠ [] → mbr s = .char len wc → 0 < len → len ≤ s.length → DecodesTo mbr (s.drop len) cs st rem →
+      DecodesTo mbr s ((len, wc) :: cs) st rem
+
+theorem decodesTo_rem_le (mbr : Bytes → MbRes) (s : Bytes) (cs : List (Nat × Nat)) (st : MbStop) (rem : Bytes)
+    (h : DecodesTo mbr s cs st rem) : rem.length ≤ s.length := by
+  induction h with
+  | done => simp
+  | nul => exact Nat.le_refl _
+  | invalid => exact Nat.le_refl _
+  | incomplete => exact Nat.le_refl _
+  | cons s len wc cs st rem _ _ _ _ _ ih => simp only [List.length_drop] at ih; omega
+
+theorem mbsLoop_stop (mbr : Bytes → MbRes) (dstlen : Nat) :
+    ∀ (cs : List (Nat × Nat)) (st : MbStop) (rem : Bytes) (f : Nat) (s : Bytes) (off count : Nat) (w : List Nat),
+      DecodesTo mbr s cs st rem → s.length < f → count + cs.length < dstlen →
+      mbsLoop mbr true dstlen f s off count w =
+        match st with
+        | .endOfInput => (some (count + cs.length), some (off + s.length), (cs.map (·.2)).reverse ++ w)
+        | .nul => (some (count + cs.length), none, 0 :: ((cs.map (·.2)).reverse ++ w))
+        | .bad => (none, some (off + (s.length - rem.length)), (cs.map (·.2)).reverse ++ w) := by
+  intro cs
+  induction cs with
+  | nil =>
+    intro st rem f s off count w hd hf hc
+    cases f with
+    | zero => simp at hf
+    | succ f =>
+      have h2 : ¬ (count ≥ dstlen) := by simp at hc; omega
+      cases hd with
+      | done => simp [mbsLoop]
+      | nul _ hne hm => unfold mbsLoop; simp [hne, h2, hm]
+      | invalid _ hne hm => unfold mbsLoop; simp [hne, h2, hm]
+      | incomplete _ hne hm => unfold mbsLoop; simp [hne, h2, hm]
+  | cons c cs ih =>
+    intro st rem f s off count w hd hf hc
+    cases hd with
+    | cons _ len wc _ _ _ hne hm hpos hle hrest =>
+      cases f with
+      | zero => simp at hf
+      | succ f =>
+        unfold mbsLoop
+        simp only [List.length_cons] at hc
+        have h2 : ¬ (count ≥ dstlen) := by omega
+        simp only [hne, if_false, true_and, h2, hm, if_true]
+        rw [ih st rem f (s.drop len) (off + len) (count + 1) (wc :: w) hrest (by simp; omega) (by omega)]
+        have hrl := decodesTo_rem_le mbr _ _ _ _ hrest
+        simp only [List.length_drop] at hrl
+        cases st <;>
+          simp only [List.length_drop, List.length_cons, List.map_cons, List.reverse_cons, List.append_assoc,
+            List.singleton_append] <;>
+          refine Prod.ext ?_ (Prod.ext ?_ rfl) <;> simp <;> omega
+
+/-- `mbsnrtowcs` with room in `dst` for everything: the three ways the scan ends.
+    * input used up: returns the count, `*src` just past the `srclen` bytes;
+    * NUL character: returns the count (NUL not counted), stores the terminating 0, `*src = NULL`;
+    * invalid or incomplete sequence: returns (size_t)-1, `*src` AT the offending sequence;
+    in every case exactly the decoded codes are stored at the front of `dst`, nothing else. -/
+theorem mbsnrtowcs_stop (mbr : Bytes → MbRes) (src : Bytes) (srclen : Nat) (d : List Nat)
+    (cs : List (Nat × Nat)) (st : MbStop) (rem : Bytes) (hs : srclen ≤ src.length)
+    (hd : DecodesTo mbr (src.take srclen) cs st rem) (hfit : cs.length < d.length) :
+    mbsnrtowcs mbr src srclen (some d) =
+      match st with
+      | .endOfInput => ⟨some cs.length, some srclen, cs.map (·.2) ++ d.drop cs.length⟩
+      | .nul => ⟨some cs.length, none, cs.map (·.2) ++ 0 :: d.drop (cs.length + 1)⟩
+      | .bad => ⟨none, some (srclen - rem.length), cs.map (·.2) ++ d.drop cs.length⟩ := by
+  unfold mbsnrtowcs
+  simp only
+  have := mbsLoop_stop mbr d.length cs st rem (srclen + 1) (src.take srclen) 0 0 [] hd (by simp; omega) (by omega)
+  rw [this]
+  cases st <;> simp [Nat.min_eq_left hs]
+
+
 end UsualProofs.C14
